@@ -69,3 +69,10 @@ chk("C03", "other",
     "Real-arithmetic model; sqrt compared through its radicand; orthogonal (and monoclinic-b) metric families only: general triclinic metrics are not covered symbolically; index box <= 2; the ordering of the final list is list.sort (cut).",
     "CrossHair + symbolic execution of the Python source (pysym) with solver-quantified completeness/soundness oracle; counterexamples replayed on the real unitcell class against brute force", "DESIGN.md 3/C03", "crosshair+pysym")
 del NA["C03"]
+
+chk("C15", "other",
+    "Rely/guarantee step on the real loop body of numbalabelNd (extracted from the current source by an AST transformation, executed by pysym): from an arbitrary state in which every read of the shared label array returns ANY label the component invariant allows, every write keeps the label inside its component and not above its node, both ends get the smaller label, and a write happens iff the change counter is incremented - an unbounded-graph, any-interleaving argument for 'labels stay in their component and a zero sweep means all edges agree'. Every prange loop of the merging kernels is checked by alias queries on two abstract iterations. find_ND_labels, get_clean_labels and numbapkmerge (+ the weighted means of pk2dmerge) are executed on all small cases with symbolic edges / labels / peak values.",
+    "numba compiles py_func's semantics (trusted); termination of the sweep under racy interleavings is not claimed; bounded parts: <=4 (5) nodes, <=3 (4) edges, <=3 (4) peaks; integers unbounded (no overflow modelling); pks_table.pk2dmerge's dictionary wiring is mirrored and its source pattern checked.",
+    "AST loop-step extraction + symbolic execution of the Python kernel bodies (pysym) with rely/guarantee havoc proxies + z3; confirmation on the jitted kernels in a subprocess", "DESIGN.md 3/C15, 2.9", "pysym")
+del NA["C15"]
+NA["C18"] = "persistence is string formatting/parsing through CPython built-ins (float<->decimal), file IO and HDF5: CrossHair (probed: contracts on parameters.saveparameters/loadparameters with symbolic names and ints) finds counterexamples (name 'a-b' comes back as 'a_b' in 9 s) but returns 'Not confirmed' on every positive contract, even for 1-character names, within 60-90 s; no encoding that DECIDES the round trip is within reach, so the property is not claimed (DESIGN.md section 5)"
